@@ -4,6 +4,7 @@ Props/C18.lean — external catch-up never regresses, corrupts or panics.
 import ChitchatModel.Lemmas.NodeState
 import ChitchatModel.Lemmas.Liveness
 import ChitchatModel.Props.C04
+import ChitchatModel.Lemmas.Catchup
 namespace Chitchat
 open NodeState
 
@@ -217,6 +218,44 @@ theorem C18_supplied_kept (n n' : Node) (i : Id) (kvs : List (Bytes × VV)) (mx 
           (Node.catchupFold (s, []) kvs).1.kvs
         rw [this, if_pos, hv']
         exact List.contains_iff_mem.2 (List.mem_map.2 ⟨kv, hkv, rfl⟩)
+      · cases h
+
+
+/-- **C18 (the copy afterwards, exactly).** Whenever the call returns, the copy of an existing member
+is `NodeState.catchupCopy` of the copy before — the transformation whose ledger-level properties
+(`Lemmas/Catchup.lean`: integrity and exactness up to the frontier are preserved by honest catch-ups;
+`xinv_step`: also inside arbitrary gossip schedules) are proved separately. -/
+theorem C18_copy_is_catchupCopy (n n' : Node) (i : Id) (kvs : List (Bytes × VV)) (mx gc : Nat)
+    (evs : List (Id × Event)) (s : NodeState) (h : n.resetNodeStateIfUpdate i kvs mx gc = .ok (n', evs))
+    (hs : n.cs.nodeState i = some s) :
+    n'.cs.nodeState i = some (s.catchupCopy kvs mx gc) := by
+  unfold Node.resetNodeStateIfUpdate at h
+  simp only at h
+  generalize hcs : (if (n.cs.lastHeartbeatIfDeleted i).isNone = true then n.cs.initIfAbsent i else n.cs) = cs at h
+  have hpres : cs.nodeState i = some s := by
+    rw [← hcs]
+    split
+    · unfold ClusterState.initIfAbsent; rw [hs]; exact hs
+    · exact hs
+  rw [hpres] at h
+  simp only at h
+  unfold NodeState.catchupCopy
+  split at h
+  · rename_i h1
+    injection h with h; injection h with h _; subst h
+    rw [if_pos h1]; exact hpres
+  · rename_i h1
+    rw [if_neg h1]
+    split at h
+    · rename_i h2
+      injection h with h; injection h with h _; subst h
+      rw [if_pos h2]; exact hpres
+    · rename_i h2
+      rw [if_neg h2]
+      split at h
+      · injection h with h; injection h with h _; subst h
+        simp only [ClusterState.setNode, ClusterState.nodeState]
+        rw [AL.lookup_insert_self]
       · cases h
 
 end Chitchat
